@@ -17,6 +17,7 @@ import (
 func (c *Ctx) RuleValidate() *Result {
 	res := &Result{Rule: "VALIDATE", MinInst: 8}
 	ctxPkg := load.ModulePath + "/regex/processors"
+	dScope := c.reachFromNamed(func(n string) bool { return n == "(*regex/operators.Operator).Run" })
 	for _, fn := range c.P.RepoFns {
 		fnName := load.FnName(fn)
 		allInstrs(fn, func(in ssa.Instruction) {
@@ -151,8 +152,10 @@ func (c *Ctx) RuleValidate() *Result {
 				}
 			}
 		})
-		// (d) switches over a string parameter: the no-case-matched path fails
-		if fnHasErrResult(fn) {
+		// (d) switches over a string parameter: the no-case-matched path fails. Scope: what
+		// the compiler reaches from Operator.Run (processor names, cmdline types) and the
+		// flag value types (output format); other switches are not fault classes of C16.
+		if fnHasErrResult(fn) && (dScope[fnName] || (fn.Name() == "Set" && fn.Signature.Recv() != nil)) {
 			for _, p := range fn.Params {
 				if p.Type().Underlying().String() != "string" {
 					continue
@@ -433,6 +436,17 @@ func (c *Ctx) RuleResolve() *Result {
 							return
 						}
 						srcs["?"] = true
+					case *ssa.Call:
+						// a repository helper that reads the input: follow what it returns
+						if sf := staticFn(&x.Call); sf != nil && c.P.IsRepoFn(sf) && len(sf.Blocks) > 0 {
+							allInstrs(sf, func(in2 ssa.Instruction) {
+								if r, ok := in2.(*ssa.Return); ok && len(r.Results) > 0 {
+									walk(r.Results[0], d+1)
+								}
+							})
+							return
+						}
+						srcs[calleeLabel(&x.Call)] = true
 					case *ssa.Const:
 						if x.Value == nil {
 							return // the zero value of the declaration
